@@ -8,10 +8,26 @@ type nodeHTML struct {
 	token     *Token
 	trimLeft  bool
 	trimRight bool
+
+	// for Options.TrimBlocks / Options.LStripBlocks of the template the text belongs to
+	tpl         *Template
+	afterBlock  bool // directly preceded by the end of a block tag ("%}")
+	beforeBlock bool // directly followed by the start of a block tag ("{%")
 }
 
 func (n *nodeHTML) Execute(ctx *ExecutionContext, writer TemplateWriter) *Error {
 	res := n.token.Val
+	if n.tpl != nil && n.tpl.Options != nil {
+		// Issue #94 https://github.com/flosch/pongo2/issues/94
+		// If an application configures pongo2 template to trim_blocks,
+		// the first newline after a template tag is removed automatically (like in PHP).
+		if n.tpl.Options.TrimBlocks && n.afterBlock && len(res) > 0 && res[0] == '\n' {
+			res = res[1:]
+		}
+		if n.tpl.Options.LStripBlocks && n.beforeBlock {
+			res = strings.TrimRight(res, "\t ")
+		}
+	}
 	if n.trimLeft {
 		res = strings.TrimLeft(res, tokenSpaceChars)
 	}
